@@ -22,6 +22,20 @@ from desolver import exception_types as etypes
 
 _ORIG_DENSE = ds.DenseOutput
 _ORIG_HANDLE = ds.handle_events
+_ORIG_DIFFRHS = ds.DiffRHS
+
+
+class LoggedDiffRHS(_ORIG_DIFFRHS):
+    """Counts Jacobian requests made through the right-hand-side wrapper (the independent njev counter)."""
+
+    def jac(self, t, y, *args, **kwargs):
+        lg = cur()
+        if lg is not None:
+            lg.jac_requests += 1
+        out = super().jac(t, y, *args, **kwargs)
+        if lg is not None:
+            lg.jac_req_done += 1
+        return out
 
 
 class Log(object):
@@ -32,8 +46,11 @@ class Log(object):
         self.rhs_done = 0       # completed
         self.jac_calls = 0
         self.jac_done = 0
+        self.jac_requests = 0
+        self.jac_req_done = 0
         self.detail_rhs = False
         self.system = None
+        self.rhs_budget = 400000
 
     def emit(self, name, **kw):
         if not self.enabled:
@@ -93,12 +110,19 @@ def session(detail_rhs=False):
     _CUR[0] = lg
     ds.DenseOutput = LoggedDenseOutput
     ds.handle_events = _logged_handle_events
+    ds.DiffRHS = LoggedDiffRHS
     try:
         yield lg
     finally:
         ds.DenseOutput = _ORIG_DENSE
         ds.handle_events = _ORIG_HANDLE
+        ds.DiffRHS = _ORIG_DIFFRHS
         _CUR[0] = prev
+
+
+class BudgetExceeded(BaseException):
+    """Raised by the wrapped right-hand side when a scenario uses far more evaluations than the unmodified
+    library needs (a run-away execution).  A BaseException so that integrate() does not wrap it."""
 
 
 class WrappedRhs(object):
@@ -123,6 +147,8 @@ class WrappedRhs(object):
     def __call__(self, t, y, *a, **kw):
         lg = self._log
         lg.rhs_calls += 1
+        if lg.rhs_calls > lg.rhs_budget:
+            raise BudgetExceeded("more than %d right-hand-side evaluations" % lg.rhs_budget)
         fp = lg.fault_plan if hasattr(lg, "fault_plan") else None
         if fp is not None:
             fp.tick("rhs")
@@ -287,6 +313,7 @@ class TracedOdeSystem(de.OdeSystem):
             "njev": self.equ_rhs.njev,
             "rhsDone": self._vf_log.rhs_done,
             "jacDone": self._vf_log.jac_done,
+            "jacReq": self._vf_log.jac_req_done,
             "depth": self._vf_depth,
         }
 
@@ -297,7 +324,8 @@ class TracedOdeSystem(de.OdeSystem):
         depth = self._vf_depth
         lg.emit("IntegrateCall", target=(t if t is not None else self.tf), given=t is not None, depth=depth,
                 nevents=(0 if events is None else (1 if callable(events) else len(events))),
-                ncb=(0 if callback is None else (len(callback) if isinstance(callback, (list, tuple)) else 1)))
+                ncb=(0 if callback is None else (len(callback) if isinstance(callback, (list, tuple)) else 1)),
+                term=([] if events is None else [bool(getattr(ev, "is_terminal", False)) for ev in ([events] if callable(events) else events)]))
         try:
             out = super().integrate(t=t, callback=callback, eta=eta, events=events)
         except BaseException as e:
